@@ -4,8 +4,9 @@ package grpc
 // path NewClient(WithDefaultServiceConfig) -> resolver update ->
 // applyServiceConfigAndBalancer — is driven with generated success/failure
 // sequences against an exact rational-arithmetic model of the gRFC A6 token
-// bucket; parseServiceConfig is fed configurations at and around the A6 limits
-// of retryThrottling and retryPolicy.
+// bucket, purely behaviourally (decisions of throttle(), sequential probing of
+// "which failure is the first refused one"); parseServiceConfig is fed
+// configurations at and around the A6 limits of retryThrottling and retryPolicy.
 
 import (
 	"context"
@@ -57,11 +58,10 @@ func c19Channel(js string) (*ClientConn, *retryThrottler, error) {
 	return cc, rt, nil
 }
 
-func c19Tokens(rt *retryThrottler) float64 {
-	rt.mu.Lock()
-	defer rt.mu.Unlock()
-	return rt.tokens
-}
+// The bucket is observed ONLY through behaviour: the booleans returned by
+// throttle() and calls of successfulRPC() on the throttler the channel
+// installed.  No field of retryThrottler is read, so the monitor keeps building
+// when the representation changes (mutex+float64, atomics, fixed point, ...).
 
 type c19BucketCase struct {
 	Max   string `json:"max_tokens"`
@@ -122,13 +122,13 @@ func TestVerifC19Throttle(t *testing.T) {
 		light = 8
 	}
 	c19RunBuckets(t, r, r.N(1500, 30000)/light)
-	c19RunConcurrent(t, r, r.N(40, 400)/light)
+	c19RunConcurrent(t, r, max(r.N(60, 600)/light, 12))
 	c19RunParse(t, r, r.N(4000, 80000)/light)
 	r.Finish(vlib.Spec{
 		Level: "exploration",
-		Rule: "bucket: the channel's real retryThrottler (built by the channel from a generated retryThrottling config: maxTokens integer/dyadic/3-decimal in (0,1000], tokenRatio dyadic/3-decimal/large) driven with 20-320 failure/success events whose mix changes every 40 events; after every event tokens in [0,max], tokens == exact rational model (tolerance 0 when maxTokens and tokenRatio are binary-exact, else 1e-9 per event), throttle() == (model <= max/2) (skipped only when an inexact model is within the tolerance of the threshold); " +
-			"concurrent: 8 goroutines x failures then successes on maxTokens=1000 with exact expected totals and refusal counts; parse: parseServiceConfig on retryThrottling / retryPolicy values at and around the A6 bounds, with and without methodConfig; non-trivial bucket case = the bucket crossed the threshold or hit a clamp; distinct = (exactness, crossings bucket, clamp at 0, clamp at max, decisions at the exact threshold) / parse outcome classes",
-		Assumptions: []string{"reading retryThrottler.tokens under its own mutex from an in-package test file",
+		Rule: "bucket: the channel's real retryThrottler (built by the channel from a generated retryThrottling config: maxTokens integer/dyadic/3-decimal in (0,1000], tokenRatio dyadic/3-decimal/large) driven with 20-320 failure/success events whose mix changes every 40 events; the bucket is observed only through behaviour: every throttle() result == (exact rational model <= max/2) (tolerance 0 when maxTokens and tokenRatio are binary-exact, else 1e-9 per event; skipped only when an inexact model is within the tolerance of the threshold), then the bucket is drained with probe failures judged the same way (index of the first refusal pins the hidden count); " +
+			"concurrent: 100-250 sequential failures, then 50-200 failures concurrent with ~20k-90k successes of tokenRatio 2^-10 on maxTokens=1000 (no clamp or threshold reachable, all values binary-exact, so the result is order independent), then the first refused probe failure must be #500-P-F+A+1; parse: parseServiceConfig on retryThrottling / retryPolicy values at and around the A6 bounds, with and without methodConfig; non-trivial bucket case = the bucket crossed the threshold or hit a clamp; distinct = (exactness, crossings bucket, clamp at 0, clamp at max, decisions at the exact threshold) / parse outcome classes",
+		Assumptions: []string{"the throttler is reached as cc.retryThrottler.Load().(*retryThrottler) and used only through throttle()/successfulRPC(); no field is read",
 			"validity of a service config per gRFC A6 / service_config.proto: maxTokens in (0,1000], tokenRatio > 0, maxAttempts >= 2, backoffs > 0, multiplier > 0, >= 1 status code"},
 		Floor: 25,
 	})
@@ -179,7 +179,6 @@ func c19Bucket(r *vlib.Run, c c19BucketCase) (viol [][2]string, sig string) {
 	exact := e1 && e2
 	half := new(big.Rat).Quo(mx, big.NewRat(2, 1))
 	tok := new(big.Rat).Set(mx)
-	maxF, _ := strconv.ParseFloat(c.Max, 64)
 	one, zero := big.NewRat(1, 1), new(big.Rat)
 	// binary-exact parameters: every float64 operation of the bucket is exact,
 	// tolerance 0.  Otherwise 1e-9 for the parameters plus 1e-9 per event.
@@ -188,52 +187,34 @@ func c19Bucket(r *vlib.Run, c c19BucketCase) (viol [][2]string, sig string) {
 	if !exact {
 		tol.Set(step)
 	}
-	cmp := func(label string, k int) {
-		got := c19Tokens(rt)
-		if got < 0 || got > maxF {
-			v("bucket-out-of-range", "after event %d (%s) of %q: tokens=%v outside [0, %v]", k, label, c.Ops[:k+1], got, maxF)
-		}
-		gr := new(big.Rat).SetFloat64(got)
-		if gr == nil {
-			v("bucket-out-of-range", "after event %d: tokens=%v is not finite", k, got)
-			return
-		}
-		diff := new(big.Rat).Sub(gr, tok)
-		diff.Abs(diff)
-		if diff.Cmp(tol) > 0 {
-			v("bucket-arithmetic", "maxTokens=%s tokenRatio=%s: after event %d (%s) tokens=%v, the A6 model has %s (tolerance %s)", c.Max, c.Ratio, k, label, got, tok.FloatString(9), tol.FloatString(9))
-		}
-	}
-	// initial state
-	if got := c19Tokens(rt); got != maxF {
-		v("bucket-initial", "maxTokens=%s: the bucket starts at %v, want maxTokens", c.Max, got)
-	}
 	crossings, clamp0, clampMax, atThresh, ambiguous := 0, 0, 0, 0, 0
 	prevAbove := true
+	fail := func(k int, label string) {
+		refused := rt.throttle()
+		tok.Sub(tok, one)
+		if tok.Cmp(zero) < 0 {
+			tok.Set(zero)
+			clamp0++
+		}
+		want := tok.Cmp(half) <= 0
+		if tok.Cmp(half) == 0 {
+			atThresh++
+		}
+		d := new(big.Rat).Sub(tok, half)
+		d.Abs(d)
+		if !exact && d.Cmp(tol) <= 0 {
+			ambiguous++
+		} else if refused != want {
+			v("throttle-decision", "maxTokens=%s tokenRatio=%s: %s %d (after %q) leaves %s tokens in the A6 model (threshold %s, tolerance %s): throttle()=%v, want %v", c.Max, c.Ratio, label, k, c.Ops[:min(k, len(c.Ops))], tok.FloatString(9), half.FloatString(9), tol.FloatString(9), refused, want)
+		}
+		r.Count("wb_throttle_decisions", 1)
+		if !exact {
+			tol.Add(tol, step)
+		}
+	}
 	for k := 0; k < len(c.Ops); k++ {
 		if c.Ops[k] == 'f' {
-			refused := rt.throttle()
-			tok.Sub(tok, one)
-			if tok.Cmp(zero) < 0 {
-				tok.Set(zero)
-				clamp0++
-			}
-			want := tok.Cmp(half) <= 0
-			if tok.Cmp(half) == 0 {
-				atThresh++
-			}
-			d := new(big.Rat).Sub(tok, half)
-			d.Abs(d)
-			if !exact && d.Cmp(tol) <= 0 {
-				ambiguous++
-			} else if refused != want {
-				v("throttle-decision", "maxTokens=%s tokenRatio=%s: failure event %d leaves %s tokens (threshold %s): throttle()=%v, want %v", c.Max, c.Ratio, k, tok.FloatString(9), half.FloatString(9), refused, want)
-			}
-			r.Count("wb_throttle_decisions", 1)
-			if !exact {
-				tol.Add(tol, step)
-			}
-			cmp("failure", k)
+			fail(k, "failure event")
 		} else {
 			rt.successfulRPC()
 			tok.Add(tok, ratio)
@@ -246,13 +227,19 @@ func c19Bucket(r *vlib.Run, c c19BucketCase) (viol [][2]string, sig string) {
 			if !exact {
 				tol.Add(tol, step)
 			}
-			cmp("success", k)
 		}
 		above := tok.Cmp(half) > 0
 		if above != prevAbove {
 			crossings++
 		}
 		prevAbove = above
+	}
+	// final probe: drain the bucket with failures; every decision on the way down
+	// (in particular the index of the first refusal, which pins the hidden token
+	// count to a unit interval) is judged by the same rule
+	for j := 0; j < 1100 && tok.Sign() > 0; j++ {
+		fail(len(c.Ops)+j, "probe failure")
+		r.Count("wb_probe_failures", 1)
 	}
 	r.Count("wb_bucket_events", int64(len(c.Ops)))
 	r.Count("wb_threshold_crossings", int64(crossings))
@@ -275,19 +262,31 @@ func c19Bucket(r *vlib.Run, c c19BucketCase) (viol [][2]string, sig string) {
 	return
 }
 
-// c19RunConcurrent: concurrent failures, then concurrent successes, on one
-// bucket; with binary-exact parameters the totals are order independent.
+// c19RunConcurrent: failures and successes hammer one bucket CONCURRENTLY; the
+// parameters are chosen so that no interleaving reaches a clamp or the
+// threshold and every intermediate value is exact in binary floating point
+// (maxTokens 1000, tokenRatio 2^-10), hence the final token count is order
+// independent: 1000 - P - F + A + 2^-10.  It is then measured behaviourally:
+// the first refused probe failure must be number 500-P-F+A+1.  One lost
+// token removal moves that index up by one, one lost tokenRatio addition moves
+// it down by one (the 2^-10 excess is what keeps the count just above an
+// integer).
 func c19RunConcurrent(t *testing.T, r *vlib.Run, n int) {
 	const fam = "concurrent"
+	const ratio = "0.0009765625" // 2^-10
 	for i := 0; i < n; i++ {
 		if !r.Want(fam, i) {
 			continue
 		}
 		rng := r.Rand(fam, i)
-		nf := 100 + rng.Intn(850)
-		ns := rng.Intn(600)
-		ratio := vlib.Pick(rng, "0.5", "0.25", "1", "2")
-		g := 8
+		pre := 100 + rng.Intn(151) // sequential failures first: 100..250
+		nf := 50 + rng.Intn(151)   // concurrent failures: 50..200
+		add := 20 + rng.Intn(70)   // whole tokens added by the concurrent successes
+		if add > pre-5 {
+			add = pre - 5
+		}
+		ns := add*1024 + 1
+		gf, gs := 2+rng.Intn(3), 4+rng.Intn(5)
 		var viol [][2]string
 		synctest.Test(t, func(t *testing.T) {
 			js := fmt.Sprintf(`{"retryThrottling":{"maxTokens":1000,"tokenRatio":%s},"methodConfig":[{"name":[{"service":"c19"}]}]}`, ratio)
@@ -297,71 +296,79 @@ func c19RunConcurrent(t *testing.T, r *vlib.Run, n int) {
 				return
 			}
 			defer func() { cc.Close(); synctest.Wait() }()
+			for k := 0; k < pre; k++ {
+				if rt.throttle() {
+					viol = append(viol, [2]string{"throttle-decision", fmt.Sprintf("failure %d on a full bucket of 1000 was refused", k+1)})
+					return
+				}
+			}
 			var mu sync.Mutex
-			refusedTotal := 0
+			refusedDuring := 0
 			var wg sync.WaitGroup
-			for w := 0; w < g; w++ {
-				cnt := nf / g
-				if w < nf%g {
+			start := make(chan struct{})
+			for w := 0; w < gf; w++ {
+				cnt := nf / gf
+				if w < nf%gf {
 					cnt++
 				}
 				wg.Add(1)
 				go func() {
 					defer wg.Done()
+					<-start
 					ref := 0
 					for k := 0; k < cnt; k++ {
 						if rt.throttle() {
 							ref++
 						}
+						// spread the failures over the successes' run time
+						for y := 0; y < 40; y++ {
+							rt.successfulRPC()
+						}
 					}
 					mu.Lock()
-					refusedTotal += ref
+					refusedDuring += ref
 					mu.Unlock()
 				}()
 			}
-			wg.Wait()
-			wantTok := float64(1000 - nf)
-			wantRef := 0
-			for j := 1; j <= nf; j++ {
-				if 1000-j <= 500 {
-					wantRef++
-				}
-			}
-			if got := c19Tokens(rt); got != wantTok {
-				viol = append(viol, [2]string{"bucket-lost-update", fmt.Sprintf("%d concurrent failures on a full bucket of 1000 leave %v tokens, want %v", nf, got, wantTok)})
-			}
-			if refusedTotal != wantRef {
-				viol = append(viol, [2]string{"throttle-decision", fmt.Sprintf("%d concurrent failures on a full bucket of 1000: %d refusals, want %d (one per token value <= 500)", nf, refusedTotal, wantRef)})
-			}
-			for w := 0; w < g; w++ {
-				cnt := ns / g
-				if w < ns%g {
+			inline := nf * 40 // successes issued by the failure goroutines
+			rest := ns - inline
+			for w := 0; w < gs; w++ {
+				cnt := rest / gs
+				if w < rest%gs {
 					cnt++
 				}
 				wg.Add(1)
 				go func() {
 					defer wg.Done()
+					<-start
 					for k := 0; k < cnt; k++ {
 						rt.successfulRPC()
 					}
 				}()
 			}
+			close(start)
 			wg.Wait()
-			rf, _ := strconv.ParseFloat(ratio, 64)
-			want2 := wantTok + float64(ns)*rf
-			if want2 > 1000 {
-				want2 = 1000
+			if refusedDuring != 0 {
+				viol = append(viol, [2]string{"throttle-decision", fmt.Sprintf("%d refusals while the bucket is between %d and %d tokens (threshold 500)", refusedDuring, 1000-pre-nf, 1000-pre+add+1)})
 			}
-			if got := c19Tokens(rt); got != want2 {
-				viol = append(viol, [2]string{"bucket-lost-update", fmt.Sprintf("after %d failures and %d concurrent successes (ratio %s): %v tokens, want %v", nf, ns, ratio, got, want2)})
+			want := 500 - pre - nf + add + 1
+			first := 0
+			for k := 1; k <= want+40; k++ {
+				if rt.throttle() {
+					first = k
+					break
+				}
+			}
+			if first != want {
+				viol = append(viol, [2]string{"bucket-lost-update", fmt.Sprintf("maxTokens=1000 tokenRatio=2^-10: %d sequential failures, then %d failures concurrent with %d successes (+%d+2^-10 tokens): the bucket must hold %d+2^-10 tokens, i.e. the first refused probe failure must be #%d, observed #%d (0 = none within %d probes): updates were lost or invented", pre, nf, ns, add, 1000-pre-nf+add, want, first, want+40)})
 			}
 		})
 		r.Eval(1)
 		r.Count("wb_concurrent_events", int64(nf+ns))
 		for _, x := range viol {
-			r.Violation(x[0], fam, i, map[string]any{"failures": nf, "successes": ns, "ratio": ratio}, "%s", x[1])
+			r.Violation(x[0], fam, i, map[string]any{"pre": pre, "failures": nf, "successes": ns}, "%s", x[1])
 		}
-		r.Nontrivial(fmt.Sprintf("concurrent:below=%v/refill-clamped=%v", nf > 500, float64(1000-nf)+float64(ns)*0.25 > 1000))
+		r.Nontrivial(fmt.Sprintf("concurrent:gf=%d/gs=%d", gf, gs))
 	}
 }
 
